@@ -173,10 +173,23 @@ def run_unit(ctx, unit):
     # (c) file partitions
     cuts = [0] + unit["cuts"] + [n]
     pieces = [data[cuts[j]:cuts[j + 1]] for j in range(len(cuts) - 1)]
-    files = [("f%d.json" % j, p) for j, p in enumerate(pieces)]
-    fargs = args + ["@D@/" + name for name, _ in files]
+    # file names are a seeded permutation of f0..fn-1 (given order != lexicographic order), sometimes in sub-directories,
+    # and sometimes one file is named twice on the command line (it must then be processed twice)
+    import random as _random
+    prng = _random.Random(n * 131 + len(cuts) * 7 + sum(cuts))
+    labels = list(range(len(pieces)))
+    prng.shuffle(labels)
+    fnames = [("%sf%d.json" % (prng.choice(("", "", "sub/", "z/y/")), labels[j])) for j in range(len(pieces))]
+    files = [(fnames[j], p) for j, p in enumerate(pieces)]
+    order = list(range(len(files)))
+    if prng.random() < 0.25:
+        order.insert(prng.randrange(len(order) + 1), prng.randrange(len(files)))
+        st.count("file_named_twice")
+    if fnames != sorted(fnames):
+        st.count("file_order_not_lexicographic")
+    fargs = args + ["@D@/" + files[j][0] for j in order]
     multi = core.Case(fargs, b"", files=files)
-    singles = [core.Case(args + ["@D@/" + name], b"", files=[(name, p)]) for name, p in files]
+    singles = [core.Case(args + ["@D@/" + files[j][0]], b"", files=[files[j]]) for j in order]
     obs2 = ctx.drv.run_many([multi] + singles)
     if any(o.result != "ok" for o in obs2):
         bad = [o for o in obs2 if o.result != "ok"][0]
@@ -203,13 +216,13 @@ def run_unit(ctx, unit):
         st.violation("files-not-concatenation", "rows for files f1..fn are not the single-file rows in order with &index continued",
                      unit, {"multi": mrows[:6], "singles": want[:6], "cuts": unit["cuts"]})
         return
-    for j, rs in enumerate(srows):
+    for j, rs in zip(order, srows):
         for k, x in enumerate(rs):
-            if x.get("f") != k or x.get("n") != ctx.scratch + "/f%d.json" % j:
+            if x.get("f") != k or x.get("n") != ctx.scratch + "/" + files[j][0]:
                 st.violation("per-file-context", "&index-in-file / &file-name wrong in file %d" % j, unit, {"row": x})
                 return
     st.count("file_partitions", 1)
-    st.see("nontrivial", (hash(data) & 0xFFFFFFF, "files%d" % len(files)))
+    st.see("nontrivial", (hash(data) & 0xFFFFFFF, "files%d" % len(order)))
     # noisy stream: only delivery independence and sanity of positions
     if unit["noise"] is not None:
         nd = unit["noise"]
